@@ -3,6 +3,7 @@ package spatial
 import (
 	"encoding/json"
 	"fmt"
+	"sync"
 
 	"github.com/EliCDavis/polyform/math/geometry"
 	"github.com/EliCDavis/polyform/modeling"
@@ -233,8 +234,9 @@ func runOctree(enc *json.Encoder, c Case) error {
 	// closest element / closest point
 	if len(c.QPts) > 0 {
 		line := newBatch("closest", c.Id)
-		batch := make([]closestEntry, 0, len(c.QPts))
-		for qi, q := range c.QPts {
+		batch := make([]closestEntry, len(c.QPts))
+		forEach(len(c.QPts), func(qi int) {
+			q := c.QPts[qi]
 			qv := v3(q)
 			bad := false
 			e := closestEntry{D2: make([]int, n), Cp: make([][]int, n), Mcp: [][]int{}, Rp: []int{0, 0, 0}}
@@ -252,7 +254,9 @@ func runOctree(enc *json.Encoder, c Case) error {
 					}
 				})
 				if mst != "OK" || mbad {
+					line.mu.Lock()
 					line.Mfail = append(line.Mfail, qi+1)
+					line.mu.Unlock()
 				}
 			}
 			badAns := false
@@ -262,17 +266,18 @@ func runOctree(enc *json.Encoder, c Case) error {
 				e.Rp = []int{fx(rp.X(), &badAns), fx(rp.Y(), &badAns), fx(rp.Z(), &badAns)}
 			})
 			line.note(qi, st, bad, badAns)
-			batch = append(batch, e)
-		}
+			batch[qi] = e
+		})
+		line.finish()
 		line.B = batch
 		if err := enc.Encode(line); err != nil {
 			return err
 		}
 		// elements whose bounds contain the point
 		line = newBatch("contain", c.Id)
-		cb := make([]setEntry, 0, len(c.QPts))
-		for qi, q := range c.QPts {
-			qv := v3(q)
+		cb := make([]setEntry, len(c.QPts))
+		forEach(len(c.QPts), func(qi int) {
+			qv := v3(c.QPts[qi])
 			e := setEntry{Hit: []int{}, Res: []int{}}
 			for i := range b.elems {
 				if bounds[i].Contains(qv) {
@@ -281,8 +286,9 @@ func runOctree(enc *json.Encoder, c Case) error {
 			}
 			st := guard(func() { e.Res = ids1(b.tree.ElementsContainingPoint(qv)) })
 			line.note(qi, st, false, false)
-			cb = append(cb, e)
-		}
+			cb[qi] = e
+		})
+		line.finish()
 		line.B = cb
 		if err := enc.Encode(line); err != nil {
 			return err
@@ -292,8 +298,9 @@ func runOctree(enc *json.Encoder, c Case) error {
 	// elements whose bounds are within a radius
 	if len(c.Ranges) > 0 {
 		line := newBatch("range", c.Id)
-		rb := make([]setEntry, 0, len(c.Ranges))
-		for qi, q := range c.Ranges {
+		rb := make([]setEntry, len(c.Ranges))
+		forEach(len(c.Ranges), func(qi int) {
+			q := c.Ranges[qi]
 			qv := v3(q[0:3])
 			r := float64(q[3]) / float64(q[4])
 			e := setEntry{Hit: []int{}, Res: []int{}}
@@ -304,8 +311,9 @@ func runOctree(enc *json.Encoder, c Case) error {
 			}
 			st := guard(func() { e.Res = ids1(b.tree.ElementsWithinRange(qv, r)) })
 			line.note(qi, st, false, false)
-			rb = append(rb, e)
-		}
+			rb[qi] = e
+		})
+		line.finish()
 		line.B = rb
 		if err := enc.Encode(line); err != nil {
 			return err
@@ -315,9 +323,10 @@ func runOctree(enc *json.Encoder, c Case) error {
 	// elements whose bounds a ray crosses: list query and passive traversal
 	if len(c.Rays) > 0 {
 		line := newBatch("ray", c.Id)
-		yb := make([]rayEntry, 0, len(c.Rays))
-		for qi, q := range c.Rays {
-			ray, t0, t1 := rayOf(q)
+		yb := make([]rayEntry, len(c.Rays))
+		var listMu sync.Mutex // the list query fills a buffer owned by the tree: one caller at a time
+		forEach(len(c.Rays), func(qi int) {
+			ray, t0, t1 := rayOf(c.Rays[qi])
 			e := rayEntry{Hit: []int{}, Res: []int{}, Trav: []int{}}
 			for i := range b.elems {
 				if bounds[i].IntersectsRayInRange(ray, t0, t1) {
@@ -326,14 +335,17 @@ func runOctree(enc *json.Encoder, c Case) error {
 			}
 			st := guard(func() {
 				// the returned slice is the tree's scratch buffer: copy at once
+				listMu.Lock()
 				e.Res = ids1(b.tree.ElementsIntersectingRay(ray, t0, t1))
+				listMu.Unlock()
 				b.tree.TraverseIntersectingRay(ray, t0, t1, func(i int, min, max *float64) {
 					e.Trav = append(e.Trav, i+1)
 				})
 			})
 			line.note(qi, st, false, false)
-			yb = append(yb, e)
-		}
+			yb[qi] = e
+		})
+		line.finish()
 		line.B = yb
 		if err := enc.Encode(line); err != nil {
 			return err
@@ -345,9 +357,9 @@ func runOctree(enc *json.Encoder, c Case) error {
 	// modeling.Tri.RayIntersects restricted to [min,max].
 	if len(c.Rays) > 0 && c.Kind == "tri" {
 		line := newBatch("near", c.Id)
-		nb := make([]nearEntry, 0, len(c.Rays))
-		for qi, q := range c.Rays {
-			ray, t0, t1 := rayOf(q)
+		nb := make([]nearEntry, len(c.Rays))
+		forEach(len(c.Rays), func(qi int) {
+			ray, t0, t1 := rayOf(c.Rays[qi])
 			elemHit := func(i int, min, max float64) (float64, bool) {
 				p, ok := b.tris[i].RayIntersects(ray)
 				if !ok {
@@ -392,8 +404,9 @@ func runOctree(enc *json.Encoder, c Case) error {
 				}
 			})
 			line.note(qi, st, bad, badAns)
-			nb = append(nb, e)
-		}
+			nb[qi] = e
+		})
+		line.finish()
 		line.B = nb
 		if err := enc.Encode(line); err != nil {
 			return err
@@ -403,6 +416,8 @@ func runOctree(enc *json.Encoder, c Case) error {
 }
 
 func (l *batchLine) note(qi int, st string, bad, badAns bool) {
+	l.mu.Lock()
+	defer l.mu.Unlock()
 	if st != "OK" {
 		l.Fail = append(l.Fail, qi+1)
 	}
